@@ -13,6 +13,7 @@
 -/
 import Lc.Lemmas.CrashAdd
 import Lc.Lemmas.PretendKeeps
+import Lc.Lemmas.ExportsApart
 
 set_option mvcgen.warning false
 
@@ -331,5 +332,80 @@ theorem rename_layers (cfg : Config) (d : Defs) (oldname newname : Bytes) (child
         subst this
         exact ⟨fun _ => Or.inr hg, fun hb => absurd hb2 hb⟩
       · exact absurd e hkn'
+
+/-! ### the export-link clauses of `Excl`, from the configuration (`ExportsApart`) -/
+
+open Lc.ExportsApart
+
+/-- `Excl` without its export-link clauses, for paths in the layer directories -/
+def ExclIn (cfg : Config) (Rw : Layer → Prop) (p : Bytes) : Prop :=
+  InLayerDirs cfg p ∧
+  ∀ k, Rw k → Fs.under (tmpPath k) p = false ∧ (Fs.under (cfgPath k) p = false ∨ p = cfgPath k)
+
+theorem excl_of_apart (cfg : Config) (hA : ExportsApart cfg) (l : Layer) (hl : Placed cfg l)
+    (Rw : Layer → Prop) (new p : Bytes) (hnew : new ≠ [47]) (h : ExclIn cfg Rw p) :
+    Excl (exPaths cfg l) Rw l.layerPath new p := by
+  refine ⟨exportsApart_exPaths cfg hA l hl p h.1, ?_, h.2⟩
+  intro hu
+  obtain ⟨rest, hr, e⟩ := (under_iff new p hnew).1 hu
+  rw [e, List.drop_left]
+  exact exportsApart_exPaths cfg hA l hl _
+    (inLayerDirs_of_under cfg l hl _ (under_append l.layerPath rest hr))
+
+/-- `renameLayer_post` with the export-link clauses discharged -/
+theorem renameLayer_post_apart (cfg : Config) (d : Defs) (oldname newname : Bytes) (childOrder : List Bytes)
+    (l : Layer) (w0 : World) (hl : findLayer d oldname = some l) (hpl : Placed cfg l)
+    (hA : ExportsApart cfg) :
+    let w := ((renameLayer cfg d oldname newname childOrder).run.run w0).2
+    (∀ p, InLayerDirs cfg p → Fs.get w.fs p = Fs.get w0.fs p) ∨
+    (∀ p, ExclIn cfg (Rewritten cfg d oldname newname l) p →
+      Fs.get w.fs p = getMoved w0.fs l.layerPath (layerPath cfg newname) p ∨
+      ∃ k, Rewritten cfg d oldname newname l k ∧ p = cfgPath k ∧ Fs.get w.fs p = some (newNode k)) := by
+  intro w
+  cases ht : testName1 d newname NAME_FREE with
+  | false =>
+    left
+    intro p _
+    show Fs.get ((renameLayer cfg d oldname newname childOrder).run.run w0).2.fs p = _
+    rw [renameLayer_rejected cfg d oldname newname childOrder w0 ht]
+  | true =>
+    obtain ⟨hn1, hn2, _⟩ := (free_iff d newname).mp ht
+    have hnew : layerPath cfg newname ≠ [47] :=
+      placed_ne_root cfg _ (placed_renamed cfg l newname hn1 hn2)
+    rcases renameLayer_post cfg d oldname newname childOrder l w0 hl hpl with h | h
+    · exact Or.inl (fun p hin => h.2 p (exportsApart_exPaths cfg hA l hpl p hin))
+    · exact Or.inr (fun p hex => h p (excl_of_apart cfg hA l hpl _ _ p hnew hex))
+
+/-- `rename_layers` with the export-link premises discharged -/
+theorem rename_layers_apart (cfg : Config) (d : Defs) (oldname newname : Bytes) (childOrder : List Bytes)
+    (l : Layer) (w0 : World) (hl : findLayer d oldname = some l) (hd : ∀ k ∈ d.layers, Placed cfg k)
+    (hu : ∀ a ∈ d.layers, ∀ b ∈ d.layers, a.name = b.name → a = b) (hA : ExportsApart cfg) :
+    let w := ((renameLayer cfg d oldname newname childOrder).run.run w0).2
+    let l' := renamed cfg l newname
+    (∀ p, InLayerDirs cfg p → Fs.get w.fs p = Fs.get w0.fs p) ∨
+    ((Fs.get w.fs (layerconfigPath l') = Fs.get w0.fs (layerconfigPath l) ∨
+      Fs.get w.fs (layerconfigPath l') = some (newNode l')) ∧
+     ∀ k ∈ d.layers, k.name ≠ oldname →
+      (k.base = oldname →
+        Fs.get w.fs (layerconfigPath k) = Fs.get w0.fs (layerconfigPath k) ∨
+        Fs.get w.fs (layerconfigPath k) = some (newNode { k with base := newname })) ∧
+      (k.base ≠ oldname → Fs.get w.fs (layerconfigPath k) = Fs.get w0.fs (layerconfigPath k))) := by
+  intro w l'
+  obtain ⟨hlm, _⟩ := findLayer_name d oldname l hl
+  have hpl := hd l hlm
+  cases ht : testName1 d newname NAME_FREE with
+  | false =>
+    left
+    intro p _
+    show Fs.get ((renameLayer cfg d oldname newname childOrder).run.run w0).2.fs p = _
+    rw [renameLayer_rejected cfg d oldname newname childOrder w0 ht]
+  | true =>
+    obtain ⟨hn1, hn2, _⟩ := (free_iff d newname).mp ht
+    have hpl' : Placed cfg l' := placed_renamed cfg l newname hn1 hn2
+    have hex : ∀ k, Placed cfg k → ∀ m ∈ exPaths cfg l, Fs.under m (layerconfigPath k) = false :=
+      fun k hk => exportsApart_exPaths cfg hA l hpl _ (inLayerDirs_layerconfig cfg k hk)
+    rcases rename_layers cfg d oldname newname childOrder l w0 hl hd hu with h | ⟨h1, h2⟩
+    · exact Or.inl (fun p hin => h p (exportsApart_exPaths cfg hA l hpl p hin))
+    · exact Or.inr ⟨h1 (hex l hpl) (hex l' hpl'), fun k hk hkn => h2 k hk hkn (hex k (hd k hk))⟩
 
 end Lc.CrashRename
